@@ -263,7 +263,6 @@ func (inst *Inst) retire() {
 	}
 	s.mu.Unlock()
 	inst.killConns()
-	inst.lock.goZombie()
 	select {
 	case inst.shutdown <- true:
 	default:
@@ -291,7 +290,6 @@ func (n *Node) stopClean() bool {
 	inst.dead = true
 	s.mu.Unlock()
 	inst.killConns()
-	inst.lock.goZombie()
 	s.zombies = append(s.zombies, inst)
 	return ok
 }
@@ -310,7 +308,11 @@ func (inst *Inst) reap() {
 			return true
 		})
 		for _, h := range hs {
-			h.Close()
+			// never block on a hook mutex (its sender may be asleep holding it)
+			if mu, ok := h.cond.L.(*sync.Mutex); ok && mu.TryLock() {
+				mu.Unlock()
+				h.Close()
+			}
 		}
 	}
 	srv.fcond.Broadcast()
@@ -343,5 +345,59 @@ func copyDir(from, to string) {
 		}
 		src.Close()
 		dst.Close()
+	}
+}
+
+// hookMutexHeld reports whether some webhook sender currently holds its
+// hook's mutex (only meaningful at quiescent points).
+func (inst *Inst) hookMutexHeld() bool {
+	srv := inst.srv
+	if srv == nil || srv.hooks == nil || srv.hooks.Len() == 0 {
+		return false
+	}
+	held := false
+	srv.hooks.Ascend(nil, func(v interface{}) bool {
+		h := v.(*Hook)
+		if h.channel {
+			return true
+		}
+		if mu, ok := h.cond.L.(*sync.Mutex); ok {
+			if mu.TryLock() {
+				mu.Unlock()
+			} else {
+				held = true
+				return false
+			}
+		}
+		return true
+	})
+	return held
+}
+
+// runZombies lets retired instances wind down under deterministic automatic
+// scheduling (lowest key first); nothing they do is visible to the run.
+func (s *Sim) runZombies() {
+	for iter := 0; iter < 10000; iter++ {
+		progress := false
+		for _, z := range s.zombies {
+			s.mu.Lock()
+			acts := z.lock.actionsLocked()
+			s.mu.Unlock()
+			if len(acts) == 0 {
+				continue
+			}
+			best := acts[0]
+			for _, a := range acts[1:] {
+				if a.key < best.key {
+					best = a
+				}
+			}
+			best.run()
+			synctest.Wait()
+			progress = true
+		}
+		if !progress {
+			return
+		}
 	}
 }
